@@ -363,6 +363,12 @@ class Exec(ExprMixin, CallMixin):
       return outs
     return self._from_res(self.ev(s.test, st), k)
 
+  def st_Nonlocal(self, s, st):
+    # `nonlocal x`: later assignments to x update the enclosing function's variable; that effect
+    # lies outside the function under contract (its contract cannot speak about it) and the
+    # variable is treated as a local from here on
+    return [Outcome('normal', st)]
+
   def st_Assert(self, s, st):
     def k(st2, v):
       outs = []
